@@ -81,8 +81,15 @@ print("%d mutants" % len(variants), flush=True)
 base = tempfile.mkdtemp(prefix="mutation-sweep-")
 PIDS = ["C%02d" % i for i in range(1, 20)]
 
+PREV = {}
+if "--reuse" in sys.argv and os.path.exists("/tmp/mutation_sweep.json"):
+    PREV = {r["label"]: r for r in json.load(open("/tmp/mutation_sweep.json"))}
+
+
 def one(v):
     label, rel, new = v
+    if label in PREV and not PREV[label]["tests_pass"]:
+        return label, rel, False, {}
     root = tempfile.mkdtemp(prefix="m", dir=base)
     try:
         shutil.copytree(repo + "/src", root + "/src", ignore=shutil.ignore_patterns("__pycache__", "*.egg-info"))
@@ -92,10 +99,14 @@ def one(v):
         open(os.path.join(root, rel), "w").write(new)
         env = dict(os.environ, PYTHONPATH=root + "/src", PYTHONDONTWRITEBYTECODE="1")
         try:
+            if label in PREV:
+                raise StopIteration
             r = subprocess.run(["/venv/bin/python", "-m", "pytest", "-q", "-x", "-p", "no:cacheprovider", "--timeout=60"], cwd=root, env=env, capture_output=True, text=True, timeout=400)
             passed = r.returncode == 0
         except subprocess.TimeoutExpired:
             passed = False
+        except StopIteration:
+            passed = True
         if not passed:
             return label, rel, False, {}
         res = {}
